@@ -128,6 +128,7 @@ def explore(ctx):
             check_indep(ctx, sc, runs)
     ctx.sample({'scenario': {k: cases[0][2][k] for k in ('files', 'passes', 'rules', 'cfg', 'sched')}, 'impl_output': cases[0][1][:40]})
     bad = coq.corr_eval('c02', IMPORTS, 'sc_run_each', [(a, b) for a, b, _ in cases], shard=150)
+    ctx.count('model-out-of-fuel(undecided)', len(coq.LAST_FUEL))
     ctx.corr_cases += len(cases)
     ctx.corr_disagree += len(bad)
     for b in bad[:5]:
